@@ -115,7 +115,7 @@ ilu_spivotL(
     pivmax = -1.0;
     pivptr = nsupc;
     diag = SLU_EMPTY;
-    old_pivptr = nsupc;
+    old_pivptr = SLU_EMPTY;
     ptr0 = SLU_EMPTY;
     for (isub = nsupc; isub < nsupr; ++isub) {
         if (marker[lsub_ptr[isub]] > jcol)
@@ -190,6 +190,9 @@ ilu_spivotL(
 	thresh = u * pivmax;
 
 	/* Choose appropriate pivotal element by our policy. */
+	/* The remembered pivot row may be missing from this column (dropped,
+	   or reserved for a later relaxed supernode): pivot afresh then. */
+	if ( *usepr && old_pivptr == SLU_EMPTY ) *usepr = 0;
 	if ( *usepr ) {
 	    switch (milu) {
 		case SMILU_1:
